@@ -322,13 +322,19 @@ func (g *vGen) deliver(changes []int, commitIdx int) {
 	g.off = next.Offset
 }
 
-// txBody emits the statements of a transaction in one of three shapes.
+// txBody emits the statements of a transaction in one of four shapes.
 func (g *vGen) txBody() []int {
-	switch vhChoose(3) {
+	switch vhChoose(4) {
 	case 0:
 		return g.stmt(0, 1)
 	case 1:
 		return g.stmt(0, 2)
+	case 3:
+		// a statement of the DDL category logged INSIDE the transaction (CREATE TEMPORARY TABLE does not
+		// commit): it is one of the transaction's changes, delivered with the others at the commit
+		ch := g.stmt(0, 1)
+		ch = append(ch, g.add(&vEvent{kind: kQuery, sql: "create temporary table tt (a int)"}))
+		return append(ch, g.stmt(1, 1)...)
 	}
 	return append(g.stmt(0, 1), g.stmt(1, 1)...)
 }
@@ -400,7 +406,7 @@ func vIgnorable() *vEvent {
 func vhGenHistory(U, ins int, symbolic bool) *vHist {
 	h := &vHist{ghost: &vGhost{}, tables: []string{"ta", "tb"}}
 	g := &vGen{h: h, symbolic: symbolic}
-	h.start = Position{Filename: "f0", Offset: 4}
+	h.start = Position{Filename: "f2", Offset: 4} // rotations go to f1 (smaller name), f2 (same name) or f3 (greater)
 	if symbolic {
 		h.start.Offset = int64(vhU32())
 	}
